@@ -219,9 +219,9 @@ def enc(cfg, crate, rep):
                 and not any(c.endswith(("to_le_bytes", "to_ne_bytes", "swap_bytes", "reverse_bits")) for c in cs) \
                 and not [r_ for r_ in rs if r_.startswith("op:") and r_ not in ("op:mutated", "op:index")]
             if ty == "UniversalString":
-                # every char becomes its scalar value: `c as u32` or u32::from(c)
-                txt_ = arg.r() + " " + " ".join(x.r() for o in getattr(arg, "ops", []) for x in o[2:] if hasattr(x, "r"))
-                ok_ext = ok_ext and ("as:u32" in txt_ or any("From<char>" in c and "u32" in c for c in cs) or any("for u32>::from" in c or "u32 as std::convert::From<char>" in c for c in cs))
+                # every char becomes its scalar value: the u32 whose bytes are written comes from `chars()` through
+                # conversions only (`c as u32`, `u32::from(c)`, `.into()`), not through a char method computing something else
+                ok_ext = ok_ext and not any(c.split("::")[-1] in ("to_digit", "len_utf8", "len_utf16", "to_ascii_uppercase", "to_ascii_lowercase", "encode_utf8", "encode_utf16", "is_ascii", "eq_ignore_ascii_case") for c in cs)
         rep.ob("C13.enc", "%s|%s" % (cfg, fn), ok_ret and ok_ext, "text is converted unit by unit (%s -> %s::to_be_bytes) and then validated by the byte-level constructor" % (unit_src, width), found=detail)
         if ok_ret:
             rep.ob("C13.enc", "%s|%s|validates-built-bytes" % (cfg, fn), ok_ext, "the validated buffer is the one that was filled", found=detail)
